@@ -57,6 +57,9 @@ inductive Why
   | tooFewQuantiles        -- driver.py:564
   | tooManyQuantiles       -- driver.py:567
   | stub (method : String) -- base-class default of verif.output.Output
+  | withinBinType          -- `_plot_core` of a diagram that takes one threshold: "A 'within' bin type cannot be used"
+  | badT                   -- `-T <value>`: verif.util.parse_int, "Could not translate … into an integer"
+  | nonPositiveT           -- driver.py:343 "-T <value> must be greater than 0"
   deriving DecidableEq, Repr
 
 inductive Decision
@@ -288,16 +291,32 @@ def dispatchD (nd : NameD) (axis : Option (String × AxisKind)) (td : TypeD) (ha
 
 def axisD (a : Option String) : Option (String × AxisKind) := a.map (fun s => (s, AxisKind.of s))
 
-def dispatch (c : Cmd) : Decision :=
-  match nameD c.name with
-  | none => .unhandled "verif.output class"     -- the driver names a class output.py does not define
-  | some nd => dispatchD nd (axisD c.axis) (typeD c.type) c.hasR c.nQ (aggOk c.agg)
-
 /-- `pl.bin_type` at the time of the run -/
 def effBinType (nd : NameD) (b : Option String) : Option String :=
   match b with
   | some b => some b
   | none => nd.defaultBinType
+
+/-- `re.compile(".*within.*").match(bin_type)` on the documented bin types -/
+def isWithinType : Option String → Bool
+  | some b => b == "within" || b == "=within" || b == "within=" || b == "=within="
+  | none => false
+
+/-- the diagrams that work on ONE threshold (`Roc`, `DRoc`, `DRoc0`, `Performance`, `BsDecomp`, …: the generated
+    table `refusesWithin`) start their `_plot_core` with error guards, one of which refuses the within-type bins
+    (a within-type interval needs two thresholds; `verif.util.get_intervals(bin_type, [t])` is empty).  Whatever the
+    thresholds are, such a run ends in one of those messages: the decision is an error, reported from inside the
+    method (the output object has been set up). -/
+def refineWithin (nd : NameD) (b : Option String) : Decision → Decision
+  | .run cls m ax src =>
+    if m == "_plot_core" && ClassTable.refusesWithin.contains cls && isWithinType (effBinType nd b)
+    then .error .withinBinType else .run cls m ax src
+  | d => d
+
+def dispatch (c : Cmd) : Decision :=
+  match nameD c.name with
+  | none => .unhandled "verif.output class"     -- the driver names a class output.py does not define
+  | some nd => refineWithin nd c.binType (dispatchD nd (axisD c.axis) (typeD c.type) c.hasR c.nQ (aggOk c.agg))
 
 /-! ### what C19 asks of a decision -/
 
@@ -333,5 +352,58 @@ def good (c : Cmd) (d : Decision) : Bool :=
   match nameD c.name with
   | none => false
   | some nd => goodD nd (axisD c.axis) (typeD c.type) c.hasR d
+
+/-! ### `-T` / `-Tagg` / `-Tx` and `-c` (driver.py:214-219, 298-304, 343-355)
+
+The argument loop converts `-T` with `verif.util.parse_int` (error message for anything `int()` rejects),
+looks `-Tagg` up with `verif.aggregator.get` and `-Tx` with `verif.axis.get` (error messages for unknown
+names); after the loop `-T <= 0` is an error.  All of that happens before the dataset is built and
+before `-m` is resolved, and none of it changes which class, method, axis or thresholds are selected:
+the values only travel into `Data(…, dim_agg_*)`.  (`-Tx` with a known axis other than time / leadtime
+is accepted here; `Data.preaggregate` stops with "Dimension aggregation has to be one of 'time' or
+'leadtime'" when the first array is loaded — an error message from inside the run.)
+`-c <file>` / `-C <file>` hand the climatology input to `Data`; nothing in the dispatch looks at it. -/
+
+/-- the value of `-T` as `int()` sees it -/
+inductive TLen
+  | notInt              -- `int(value)` raises ValueError
+  | int (v : Int)
+  deriving DecidableEq, Repr
+
+structure TArgs where
+  /-- `-T` -/
+  len : Option TLen := none
+  /-- `-Tagg` -/
+  agg : Option AggArg := none
+  /-- `-Tx` -/
+  axis : Option String := none
+  /-- `-c` or `-C` given -/
+  clim : Bool := false
+  deriving DecidableEq, Repr
+
+/-- `-Tx <name>` with a name `verif.axis.get` does not know -/
+def tAxisBad : Option String → Bool
+  | some a => !axisKnown a
+  | none => false
+
+/-- the error exits of the arguments above; `none` = all of them are accepted -/
+def tCheck (t : TArgs) : Option Why :=
+  if t.len == some .notInt then some .badT
+  else if !aggOk t.agg then some .unknownAgg
+  else if tAxisBad t.axis then some .unknownAxis
+  else match t.len with
+    | some (.int v) => if v ≤ 0 then some .nonPositiveT else none
+    | _ => none
+
+structure CmdT where
+  base : Cmd
+  t : TArgs
+  deriving DecidableEq, Repr
+
+/-- the decision for a command line that may carry `-T…` / `-c` -/
+def dispatchT (c : CmdT) : Decision :=
+  match tCheck c.t with
+  | some w => .error w
+  | none => dispatch c.base
 
 end VerifModel.Dispatch
